@@ -350,7 +350,10 @@ impl Model for RoleModel {
                 senders.insert(x.clone());
             }
         }
-        for x in ["owner", "alice", "stranger"] {
+        // the deployer, a trader, a stranger, and every address that appears in an instantiate message
+        // without holding a role ("x" = the price feeds' oracle_hub_contract, "insurance_fund" = the
+        // engine's placeholder insurance fund before UpdateConfig)
+        for x in ["owner", "alice", "stranger", "x", "insurance_fund"] {
             senders.insert(x.into());
         }
         senders.insert(w.engine.to_string());
